@@ -266,11 +266,15 @@ package types
 
 // nested paths of different non-exact, non-regex types must be split into
 // dedicated files (and same-type entries never are)
+// (begin paths are matched case-insensitively and stored lower-cased: nesting
+// between a begin and a prefix path must be recognised whatever their case)
 //@ func overlaps
 //@   props C04
 //@   modifies nothing
-//@   ensures iff: result == (e1.match != e2.match && e1.path != e2.path && e1.match != MatchExact && e2.match != MatchExact
-//@       && e1.match != MatchRegex && e2.match != MatchRegex && hasPrefix(e1.path, e2.path))
+//@   ensures only:  result ==> e1.match != e2.match && e1.path != e2.path && e1.match != MatchExact && e2.match != MatchExact
+//@       && e1.match != MatchRegex && e2.match != MatchRegex && hasPrefix(lower(e1.path), lower(e2.path))
+//@   ensures nested: e1.match != e2.match && e1.path != e2.path && e1.match != MatchExact && e2.match != MatchExact
+//@       && e1.match != MatchRegex && e2.match != MatchRegex && hasPrefix(lower(e1.path), lower(e2.path)) ==> result
 //@ end
 
 // host and path are joined by '#' so that dir matching cannot cross from the
